@@ -59,8 +59,10 @@ def exception_of(tr):
 
 
 def rows(tr):
-    """Row indices (time_step_counter) written by the executed steps whose step completed."""
-    n = tr.n if tr.step_error is None else tr.n - 1
+    """Row indices (time_step_counter) of the executed steps whose daily solution completed (the
+    rows were written and the end-of-day state was observed).  A step that raised while switching
+    to the next season (documented rejection at a season start) still counts: its day is complete."""
+    n = min(tr.n, len(tr.post))
     return tr.tsc_a[:n], n
 
 
@@ -151,3 +153,17 @@ def cfg_simplifications(cfg):
         k = int(n * frac)
         if k >= 10:
             yield mod(end=(s + dt.timedelta(days=k)).strftime("%Y/%m/%d"))
+
+
+def weather_at(cfg, dates):
+    """Canonical weather records (independent of the model's own matrix) for the given dates:
+    array columns MinTemp, MaxTemp, Precipitation, ReferenceET."""
+    from ..config import apply_weather_xform, build_weather
+
+    df = apply_weather_xform(build_weather(cfg["weather"]), cfg.get("weather_xform"))
+    d = df.Date.values.astype("datetime64[D]")
+    want = np.array([np.datetime64(x.date()) for x in dates]).astype("datetime64[D]")
+    pos = np.searchsorted(d, want)
+    if (pos >= len(d)).any() or (d[pos] != want).any():
+        raise ValueError("date not covered by the weather table")
+    return df[["MinTemp", "MaxTemp", "Precipitation", "ReferenceET"]].values.astype(float)[pos]
